@@ -729,7 +729,11 @@ func c10Worker(tier string, shard, of, from int) {
 				last, since = cur, time.Now()
 				continue
 			}
-			if cur != "" && time.Since(since) > 10*time.Second {
+			limit := 10 * time.Second
+			if os.Getenv("VERIF_CONFIRM_RUN") != "" {
+				limit = 60 * time.Second // the job is re-run alone to confirm: rule out starvation on a loaded machine
+			}
+			if cur != "" && time.Since(since) > limit {
 				fmt.Fprintf(os.Stderr, "STUCK INPUT %q\n", clip(cur, 2000))
 				os.Exit(3)
 			}
@@ -764,7 +768,7 @@ func c10(r *rt.Run) {
 	r.Assumptions = []string{
 		"decides the property for all token strings up to the length bound and all inputs within edit distance 1 (token or byte) of a corpus; long adversarial inputs are outside the bound (this is not coverage-guided fuzzing)",
 		"header counts in fact files are kept <= 10^4: a count near 2^32 makes readPred allocate that many rows (noted by reading, not executed in the sandbox)",
-		"workers run under ulimit -v with a 10 s per-input watchdog (normal time per input < 5 ms) and a 300 s per-job deadline; a job that does not answer is re-run once more before it is believed",
+		"workers run under ulimit -v with a 10 s per-input watchdog (normal time per input < 5 ms) and a 300 s per-job deadline; a job that does not answer is re-run once more, alone and with six times the time, before it is believed",
 	}
 	if r.Replay != "" {
 		_, w := rt.ReadReplay(r.Replay)
